@@ -63,7 +63,7 @@ func (c *mctx) yieldS(off int) *S {
 	return &S{K: SYield, ID: c.g.id(), E: bin(bin(c.idx(), "*", lit(10)), "+", bin(v(c.acc), "+", lit(off)))}
 }
 
-const matrixPieces = 14
+const matrixPieces = 16
 
 // piece returns the statements of piece k, or nil when it is not valid in this context.
 func (c *mctx) piece(k int) []*S {
@@ -130,11 +130,25 @@ func (c *mctx) piece(k int) []*S {
 		return []*S{{K: SFor, ID: g.id(), Init: &S{K: SDecl, Name: j, E: lit(0)}, E: bin(v(j), "<", lit(3)), Post: &S{K: SIncDec, Name: j, Op: "++"},
 			Body: []*S{{K: SSwitch, ID: g.id(), E: v(j), Cases: []*Case{{Vals: []*X{lit(1)}, Body: []*S{{K: SContinue, ID: g.id()}}}}},
 				{K: SAssign, Name: c.acc, Op: "+=", E: bin(v(j), "+", lit(1))}}}}
+	case 14: // the accumulator is captured, then re-declared together with a new variable
+		if c.depth == 0 || *c.shadowed {
+			return nil
+		}
+		*c.shadowed = true
+		id := g.id()
+		get, t := fmt.Sprintf("get%d", id), fmt.Sprintf("t%d", id)
+		return []*S{{K: SFuncLit, ID: g.id(), Name: get, NoUse: true, Ret: "int", Body: []*S{{K: SReturn, E: v(c.acc)}}},
+			{K: SRaw, ID: g.id(), Src: fmt.Sprintf("%s, %s := %s+%d, %d\n_ = %s", c.acc, t, c.acc, g.r.Range(10, 20), g.r.Range(1, 5), t)},
+			{K: SEff, ID: g.id(), Tag: g.nextTag(), Reads: []string{c.acc, t}},
+			{K: SAssign, ID: g.id(), Name: c.acc, Op: "+=", E: &X{K: XCall, Name: get}}}
+	case 15: // a range over a function (stays native; its body does not yield) left by break / continue
+		j := fmt.Sprintf("n%d", g.id())
+		return []*S{{K: SRaw, ID: g.id(), Src: fmt.Sprintf("for %[1]s := range func(yield func(int) bool) {\n\t_ = yield(1) && yield(2) && yield(3)\n} {\n\tif %[1]s == 2 {\n\t\tcontinue\n\t}\n\tif %[1]s == 3 && %[2]s > 2 {\n\t\tbreak\n\t}\n\t%[2]s += %[1]s\n}", j, c.acc)}}
 	}
 	panic("bad piece")
 }
 
-const matrixWrappers = 15
+const matrixWrappers = 21
 
 // wrap applies wrapper k to the statements produced by inner (called with the context of the
 // wrapper's body); nil when the wrapper is not valid here.
@@ -267,6 +281,41 @@ func (c *mctx) wrap(k int, inner func(*mctx) []*S) []*S {
 			{K: SYieldFrom, ID: g.id(), E: &X{K: XIterCall, Name: name}}}
 	case 14: // nothing around it
 		return inner(c)
+	case 15, 16, 17, 18: // ranges over a string, a one-entry map, a closed channel, an array value that is not addressable
+		i, e := loopVar(), fmt.Sprintf("e%d", g.id())
+		d.ctr, d.inLoop, d.inSwitch = i, true, false
+		body := inner(d)
+		if body == nil {
+			return nil
+		}
+		g.needHelpers = true
+		switch k {
+		case 15:
+			return []*S{{K: SRange, ID: g.id(), Name: i, Name2: e, Op: ":=", E: &X{K: XStr, S: "aé€"}, Body: append([]*S{{K: SUse, Name: i}, {K: SUse, Name: e}}, body...)}}
+		case 16:
+			return []*S{{K: SRange, ID: g.id(), Name: i, Name2: e, Op: ":=", E: &X{K: XCall, Name: "mkm", Args: []*X{lit(1)}}, Body: append([]*S{{K: SUse, Name: i}, {K: SUse, Name: e}}, body...)}}
+		case 17:
+			return []*S{{K: SRange, ID: g.id(), Name: i, Op: ":=", E: &X{K: XCall, Name: "mkc", Args: []*X{lit(2)}}, Body: append([]*S{{K: SUse, Name: i}}, body...)}}
+		default:
+			return []*S{{K: SRange, ID: g.id(), Name: i, Name2: e, Op: ":=", E: &X{K: XCall, Name: "mka", Args: []*X{lit(1)}}, Body: append([]*S{{K: SUse, Name: i}, {K: SUse, Name: e}}, body...)}}
+		}
+	case 19: // a consumer loop over another generator
+		i := loopVar()
+		d.ctr, d.inLoop, d.inSwitch = i, true, false
+		body := inner(d)
+		if body == nil {
+			return nil
+		}
+		return []*S{{K: SRange, ID: g.id(), Name: i, Op: ":=", OverIter: true, E: &X{K: XIterCall, Name: "MH", Args: []*X{lit(2)}}, Body: append([]*S{{K: SUse, Name: i}}, body...)}}
+	case 20: // a pull loop over another generator
+		it, i := fmt.Sprintf("it%d", g.id()), loopVar()
+		d.ctr, d.inLoop, d.inSwitch = i, true, false
+		body := inner(d)
+		if body == nil {
+			return nil
+		}
+		return []*S{{K: SDecl, ID: g.id(), Name: it, E: &X{K: XIterCall, Name: "MH", Args: []*X{lit(2)}}},
+			{K: SFor, ID: g.id(), E: &X{K: XRaw, S: it + ".MoveNext()"}, Body: append([]*S{{K: SDecl, Name: i, E: &X{K: XRaw, S: it + ".Current()"}}}, body...)}}
 	}
 	panic("bad wrapper")
 }
